@@ -211,16 +211,18 @@ def frags_of(ex, s):
         else:
             flat.append(x)
     for x in flat:
-        if z3.is_app(x) and x.decl().eq(msd_text):
+        if z3.is_app(x) and x.decl().eq(frag_text):
+            parts.append(("seq", x.arg(0)))      # writing the text of a fragment list is writing those fragments
+        elif z3.is_app(x) and x.decl().eq(msd_text):
             parts.append(FragSort.Param(x.arg(0)))
         elif z3.is_string_value(x) and x.as_string() == "":
             continue
         else:
-            if parts and parts[-1].decl().eq(FragSort.Text) and z3.is_string_value(parts[-1].arg(0)) and z3.is_string_value(x):
+            if parts and not isinstance(parts[-1], tuple) and parts[-1].decl().eq(FragSort.Text) and z3.is_string_value(parts[-1].arg(0)) and z3.is_string_value(x):
                 parts[-1] = FragSort.Text(z3.StringVal(parts[-1].arg(0).as_string() + x.as_string()))
             else:
                 parts.append(FragSort.Text(x))
-    return [z3.Unit(p) for p in parts]
+    return [p[1] if isinstance(p, tuple) else z3.Unit(p) for p in parts]
 
 
 def _stringio_new(ex, cls, args, kwargs):
